@@ -143,8 +143,41 @@ theorem scalars_sub {a b : List Nat} (hb : Scalars b) (h : ∀ x ∈ a, x ∈ b)
 
 /-! ## SUBSTRING / LEFT / RIGHT on rune lists -/
 
-theorem substr_nowrap (text : List Nat) (p : Int) (hp : 0 ≤ p) (hlen : (text.length : Int) < 4611686018427387904) :
-    substrRunes text (p + 1) none = some (text.drop p.toNat) := by
+/-- The clamp of the repaired `Substring.Eval` never changes the result: taking more than what is
+left takes what is left. -/
+theorem take_clamp (xs : List Nat) (s L : Int) (hs0 : 0 ≤ s) (hs : s < xs.length) :
+    (xs.drop s.toNat).take (if L > (xs.length : Int) - s then (xs.length : Int) - s else L).toNat
+      = (xs.drop s.toNat).take L.toNat := by
+  by_cases h : L > (xs.length : Int) - s
+  · rw [if_pos h, List.take_of_length_le (by simp; omega), List.take_of_length_le (by simp; omega)]
+  · rw [if_neg h]
+
+/-- SUBSTRING computes its specification for **every** start and length (no overflow guard: the
+repaired clamp does not add). The only side conditions are those of the int64 representation:
+`start` is an int64 and the string has fewer than 2^62 characters. -/
+theorem substr_eq_spec (text : List Nat) (p : Int) (len? : Option Int)
+    (hlen : (text.length : Int) < 4611686018427387904) (hp : minI64 ≤ p) :
+    substrRunes text p len? = substrRunesSpec text p len? := by
+  unfold substrRunes substrRunesSpec
+  dsimp only
+  generalize len?.getD (text.length : Int) = L
+  by_cases hneg : p < 0
+  · have hw1 : wrap64 ((text.length : Int) + p) = text.length + p := by
+      unfold wrap64 two63 two64 minI64 at *; omega
+    simp only [hneg, if_true, hw1]
+    by_cases hc : (text.length : Int) + p < 0 ∨ (text.length : Int) + p ≥ text.length ∨ L ≤ 0
+    · rw [if_pos hc, if_pos hc]
+    · rw [if_neg hc, if_neg hc]
+      exact take_clamp text _ L (by omega) (by omega)
+  · simp only [hneg, if_false]
+    by_cases hc : p - 1 < 0 ∨ p - 1 ≥ (text.length : Int) ∨ L ≤ 0
+    · rw [if_pos hc, if_pos hc]
+    · rw [if_neg hc, if_neg hc]
+      exact take_clamp text _ L (by omega) (by omega)
+
+/-- The two-argument form from a non-negative position is `drop` (no side condition). -/
+theorem substr_nowrap (text : List Nat) (p : Int) (hp : 0 ≤ p) :
+    substrRunes text (p + 1) none = text.drop p.toNat := by
   unfold substrRunes
   simp only [Option.getD_none]
   have h1 : ¬ (p + 1 < 0) := by omega
@@ -156,66 +189,9 @@ theorem substr_nowrap (text : List Nat) (p : Int) (hp : 0 ≤ p) (hlen : (text.l
     simp [List.drop_eq_nil_of_le this]
   · have hc : ¬ (p + 1 - 1 < 0 ∨ p + 1 - 1 ≥ (text.length : Int) ∨ (text.length : Int) ≤ 0) := by omega
     rw [if_neg hc]
-    have hw : wrap64 (p + 1 - 1 + (text.length : Int)) = p + text.length := by
-      unfold wrap64 two63 two64 at *; omega
-    simp only [hw]
-    have h2 : p + (text.length : Int) > text.length ∨ p = 0 := by omega
-    rcases h2 with h2 | h2
-    · rw [if_pos h2]
-      have h3 : ¬ ((text.length : Int) < p + 1 - 1) := by omega
-      rw [if_neg h3]
-      have e1 : (p + 1 - 1).toNat = p.toNat := by congr 1; omega
-      rw [e1]
-      have : ((text.length : Int) - (p + 1 - 1)).toNat = text.length - p.toNat := by omega
-      rw [this]
-      simp [List.take_of_length_le]
-    · subst h2
-      simp
-
-/-- Without int64 overflow the 3-argument SUBSTRING computes the specification. -/
-theorem substr_len_nowrap (text : List Nat) (p l : Int) (hlen : (text.length : Int) < 4611686018427387904)
-    (hp : minI64 ≤ p ∧ p ≤ maxI64) (hl : l ≤ maxI64)
-    (hno : ¬ ((if p < 0 then (text.length : Int) + p else p - 1) + l > maxI64)) :
-    substrRunes text p (some l) = some (substrRunesSpec text p (some l)) := by
-  unfold substrRunes substrRunesSpec
-  simp only [Option.getD_some]
-  by_cases hneg : p < 0
-  · have hw1 : wrap64 ((text.length : Int) + p) = text.length + p := by
-      unfold wrap64 two63 two64 minI64 maxI64 at *; omega
-    simp only [hneg, if_true, hw1] at hno ⊢
-    by_cases hc : (text.length : Int) + p < 0 ∨ (text.length : Int) + p ≥ text.length ∨ l ≤ 0
-    · rw [if_pos hc, if_pos hc]
-    · rw [if_neg hc, if_neg hc]
-      have hw : wrap64 ((text.length : Int) + p + l) = text.length + p + l := by
-        unfold wrap64 two63 two64 minI64 maxI64 at *; omega
-      simp only [hw]
-      by_cases hb : (text.length : Int) + p + l > text.length
-      · rw [if_pos hb]
-        have : ¬ ((text.length : Int) < text.length + p) := by omega
-        rw [if_neg this]
-        congr 1
-        rw [List.take_of_length_le (by simp; omega), List.take_of_length_le (by simp; omega)]
-      · rw [if_neg hb]
-        have : ¬ ((text.length : Int) + p + l < text.length + p) := by omega
-        rw [if_neg this]
-        congr 2; omega
-  · simp only [hneg, if_false] at hno ⊢
-    by_cases hc : p - 1 < 0 ∨ p - 1 ≥ (text.length : Int) ∨ l ≤ 0
-    · rw [if_pos hc, if_pos hc]
-    · rw [if_neg hc, if_neg hc]
-      have hw : wrap64 (p - 1 + l) = p - 1 + l := by
-        unfold wrap64 two63 two64 minI64 maxI64 at *; omega
-      simp only [hw]
-      by_cases hb : p - 1 + l > text.length
-      · rw [if_pos hb]
-        have : ¬ ((text.length : Int) < p - 1) := by omega
-        rw [if_neg this]
-        congr 1
-        rw [List.take_of_length_le (by simp; omega), List.take_of_length_le (by simp; omega)]
-      · rw [if_neg hb]
-        have : ¬ (p - 1 + l < p - 1) := by omega
-        rw [if_neg this]
-        congr 2; omega
+    have e1 : (p + 1 - 1).toNat = p.toNat := by congr 1; omega
+    rw [take_clamp text _ _ (by omega) (by omega), e1]
+    exact List.take_of_length_le (by simp)
 
 /-! ## HEX / UNHEX -/
 
